@@ -42,6 +42,7 @@ type Outcome struct {
 	Reached      []string `json:"reached"`
 	Obs          []string `json:"observations"`
 	Inapplicable string   `json:"inapplicable,omitempty"`
+	Iterations   int      `json:"iterations,omitempty"`
 }
 
 type stop struct{ why string }
